@@ -715,3 +715,7 @@ def check(case):
             a = ctrl.get_log_posterior()(v_free.copy())
             b = ctrl2.get_log_posterior()(v_free.copy())
             case.close(b, a, rtol=1e-9, what='hierarchical posterior with other unrelated rows/columns/row order')
+
+
+RULE += (' Classes and clauses added in later rounds of the seeded-change protocol (DESIGN 9.4) are named in REQUIRED '
+         'and in seeded/HISTORY.json; the evidence counts every one of them under classes.')
